@@ -129,6 +129,19 @@ pub fn run(rng: &mut StdRng, thorough: bool, t: &mut Tracer) {
             s.set_time(tm);
             q_cur(&s, t);
         }
+        // block times with a sub-second part, in the last and the first second of an epoch
+        for k in 1..=2u64 {
+            let b = g.saturating_add(k * dur).saturating_add((s.now().saturating_sub(g) / dur) * dur);
+            if b >= 18_000_000_000 || b < s.now() + 2 { continue; }
+            for (secs, nanos) in [(b - 1, 1u64), (b - 1, 500_000_000), (b - 1, 999_999_999), (b, 1), (b, 999_999_999)] {
+                if secs < s.now() { continue; }
+                let mut blk = s.app.block_info();
+                blk.time = cosmwasm_std::Timestamp::from_nanos(secs * 1_000_000_000 + nanos);
+                blk.height += 1;
+                s.app.set_block(blk);
+                q_cur(&s, t);
+            }
+        }
         // pairs of queries exactly one duration apart (ids must differ by exactly one)
         let mut tt = s.now();
         for _ in 0..(if thorough { 10 } else { 3 }) {
@@ -151,6 +164,7 @@ pub fn run(rng: &mut StdRng, thorough: bool, t: &mut Tracer) {
         let now = s.now();
         upd(&mut s, t, 0, DAY - 1, now + 10);         // too short
         upd(&mut s, t, 0, DAY, now - 1);              // genesis in the past
+        upd(&mut s, t, 0, dur + 7, g);                // the stored genesis (now in the past) with another duration
         upd(&mut s, t, 1, DAY, now + 10);             // not the owner
         upd(&mut s, t, 9, 2 * DAY, now + 10);         // stranger
         upd(&mut s, t, 0, 86399, now);                // too short at boundary
